@@ -49,12 +49,12 @@ inductive WSpec where
   | s (sfs : List SField)
   | f (shpType : Nat) (ffs : List FF)
 inductive RSpec where
-  | s (sfs : List SField)
+  | s (sfs : List SField) (reuse : Bool)
   | f (names : List Bytes)
   | m (calls : List Call)      -- reading schedule on one decoder
 
 def callsOf : RSpec → List Call
-  | .s sfs => [.s sfs]
+  | .s sfs ru => [.s sfs ru]
   | .f ns => [.f ns]
   | .m cs => cs
 
@@ -83,13 +83,15 @@ def wspecP : PM WSpec := do
 
 def callP : PM Call := do
   match ← next with
-  | "S" => let n ← nat; let l ← many sfieldP n; pure (.s l)
+  | "S" => let n ← nat; let l ← many sfieldP n; pure (.s l false)
+  | "SR" => let n ← nat; let l ← many sfieldP n; pure (.s l true)
   | "F" => let n ← nat; let l ← many hexB n; pure (.f l)
   | _ => failure
 
 def rspecP : PM RSpec := do
   match ← next with
-  | "S" => let n ← nat; let l ← many sfieldP n; pure (.s l)
+  | "S" => let n ← nat; let l ← many sfieldP n; pure (.s l false)
+  | "SR" => let n ← nat; let l ← many sfieldP n; pure (.s l true)
   | "F" => let n ← nat; let l ← many hexB n; pure (.f l)
   | "M" => let n ← nat; let l ← many callP n; pure (.m l)
   | _ => failure
@@ -141,7 +143,7 @@ def runWrite (c : Case) : Except Fault Written :=
 
 def runRead (c : Case) (f : FileM UInt64) : ReadRes UInt64 :=
   match c.r with
-  | .s sfs => readS 0 f sfs
+  | .s sfs ru => readS 0 f sfs ru
   | .f names => readF f names
   | .m calls => readM 0 f calls
 
@@ -276,7 +278,7 @@ the call is `DecodeRow` (typed values) or `DecodeRowFields` (texts). -/
 def callPlan (c : Case) (cols : List Col) (call : Call) : Option (Bool × List (Option Nat)) :=
   let names := cols.map (·.name)
   match call with
-  | .s sfs =>
+  | .s sfs _ =>
     let gks := sfs.filterMap fun sf => match sf.kind with | .geom k => some k | _ => none
     if gks.length != 1 then none
     else if !(c.recs.all fun r => match Spec.normal ptEqBits r.1 with | some g => gks.all (kindAccepts · g) | none => false) then none
@@ -330,7 +332,7 @@ def checkVal (readerIsStruct : Bool) (col : Col) (written : Val) (got : String) 
 /-- "no geometry" in a struct field of a concrete geometry type is that type's zero value -/
 def noGeomAs (call : Option Call) : BGeom → BGeom
   | .nil => (match call with
-    | some (.s sfs) => (match (sfs.filterMap fun sf => match sf.kind with | .geom k => some k | _ => none).head? with
+    | some (.s sfs _) => (match (sfs.filterMap fun sf => match sf.kind with | .geom k => some k | _ => none).head? with
       | some k => zeroFieldGeom k
       | none => .nil)
     | _ => .nil)
@@ -362,7 +364,7 @@ def specViolations (c : Case) (cols : List Col) (plans : List (Bool × List (Opt
   a ++ b ++ e ++ n ++ rows
 
 def pathName (c : Case) : String :=
-  (match c.w with | .s _ => "S" | .f _ _ => "F") ++ (match c.r with | .s _ => "S" | .f _ => "F" | .m _ => "M")
+  (match c.w with | .s _ => "S" | .f _ _ => "F") ++ (match c.r with | .s _ _ => "S" | .f _ => "F" | .m _ => "M")
 
 def firstDiff : Tok → Tok → Nat → String
   | a :: as, b :: bs, i => if a == b then firstDiff as bs (i + 1) else s!"token {i}: model={a} impl={b}"
